@@ -816,3 +816,184 @@ pub fn must_may_opt(p: &Prog, cap: usize, allow_spurious: bool) -> MustMay {
         states,
     }
 }
+
+// ---------------------------------------------------------------------------------------------
+// Trace conformance: is ONE observed execution a behaviour of the model?
+//
+// The outcome-set oracle above compares sets over all schedules; a deviation on one schedule can
+// hide behind another schedule that legitimately produces the same outcome. Here a single execution
+// is checked on its own: the body log gives, in one total order, the call and the return of every
+// operation (written at the client boundary: call before invoking, return after the reply) and every
+// spurious wake-up the scheduler chose. The execution conforms iff the model can take its steps such
+// that every step of an operation lies between that operation's call and return, every return
+// carries the model's result, spurious wake-ups happen exactly where they were observed, and the
+// execution ends the way the model's final state says (all finished / exactly these tasks blocked /
+// this panic). This is a linearizability check with the model as the sequential specification,
+// extended to blocking multi-phase operations.
+
+#[derive(Clone, Debug, PartialEq, Eq)]
+pub enum ObsEv {
+    Call(usize, usize),
+    Ret(usize, usize, i64),
+    Spurious(usize),
+}
+
+#[derive(Clone, Debug, PartialEq, Eq)]
+pub enum Conf {
+    Ok,
+    /// (index of the first event no model run could get past, description)
+    Mismatch(usize, String),
+    Inconclusive,
+}
+
+fn conforms_pol(p: &Prog, evs: &[ObsEv], term: &MTerm, pol: &Policy, cap: usize) -> Conf {
+    let nt = p.tasks.len();
+    // per prefix length: how many ops of each task have been called / have returned
+    let mut called = vec![vec![0usize; nt]; evs.len() + 1];
+    let mut returned = vec![vec![0usize; nt]; evs.len() + 1];
+    let mut obs_res: Vec<Vec<Option<i64>>> = p.tasks.iter().map(|t| vec![None; t.len()]).collect();
+    for (i, e) in evs.iter().enumerate() {
+        called[i + 1] = called[i].clone();
+        returned[i + 1] = returned[i].clone();
+        match e {
+            ObsEv::Call(t, o) => {
+                if *t >= nt || *o != called[i][*t] {
+                    return Conf::Inconclusive; // log not in the expected shape
+                }
+                called[i + 1][*t] = o + 1;
+            }
+            ObsEv::Ret(t, o, r) => {
+                if *t >= nt || *o != returned[i][*t] || *o >= p.tasks[*t].len() {
+                    return Conf::Inconclusive;
+                }
+                returned[i + 1][*t] = o + 1;
+                obs_res[*t][*o] = Some(*r);
+            }
+            ObsEv::Spurious(_) => {}
+        }
+    }
+    let result_ok = |s: &MState, t: usize| -> bool {
+        // the op just completed by the model is pc-1
+        let o = s.pc[t] - 1;
+        match obs_res[t][o] {
+            Some(r) => matches!(p.tasks[t][o], Op::Rand) || s.results[t][o] == r,
+            None => true, // never returned in the observation (execution ended first)
+        }
+    };
+    let mut seen: HashSet<(usize, MState)> = HashSet::new();
+    let mut stack: Vec<(usize, MState)> = vec![(0, init_state(p))];
+    let mut furthest = 0usize;
+    while let Some((i, s)) = stack.pop() {
+        if !seen.insert((i, s.clone())) {
+            continue;
+        }
+        if seen.len() > cap {
+            return Conf::Inconclusive;
+        }
+        furthest = furthest.max(i);
+        let live: Vec<usize> = (0..nt).filter(|t| s.st[*t] == St::Live).collect();
+        // goal?
+        if i == evs.len() {
+            match term {
+                MTerm::Pass => {
+                    if live.is_empty() {
+                        return Conf::Ok;
+                    }
+                }
+                MTerm::Deadlock(ids) => {
+                    if &live == ids && live.iter().all(|&t| s.pc[t] < called[i][t] && matches!(step_task(&s, t, p, pol), Step::Blocked)) {
+                        return Conf::Ok;
+                    }
+                }
+                MTerm::Panic(_) => {}
+            }
+        }
+        // consume the next observed event
+        if i < evs.len() {
+            match &evs[i] {
+                ObsEv::Call(t, o) => {
+                    if s.st[*t] == St::Live && s.pc[*t] == *o {
+                        stack.push((i + 1, s.clone()));
+                    }
+                }
+                ObsEv::Ret(t, o, r) => {
+                    if s.pc[*t] > *o && (matches!(p.tasks[*t][*o], Op::Rand) || s.results[*t][*o] == *r) {
+                        stack.push((i + 1, s.clone()));
+                    }
+                }
+                ObsEv::Spurious(t) => {
+                    if *t < nt && parked(&s, *t, p) {
+                        let mut k = s.clone();
+                        k.phase[*t] = 0;
+                        let k = done(k, *t, R_OK, p, pol);
+                        if result_ok(&k, *t) {
+                            stack.push((i + 1, k));
+                        }
+                    }
+                }
+            }
+        }
+        // model steps of operations that are in flight (called, not yet completed in the model)
+        for &t in &live {
+            let in_flight = s.pc[t] < called[i][t];
+            let exiting = s.pc[t] >= p.tasks[t].len() && returned[i][t] >= p.tasks[t].len();
+            if !in_flight && !exiting {
+                continue;
+            }
+            match step_task(&s, t, p, pol) {
+                Step::Blocked => {}
+                Step::Next(v) => {
+                    for k in v {
+                        if k.pc[t] > s.pc[t] && !exiting && !result_ok(&k, t) {
+                            continue;
+                        }
+                        stack.push((i, k));
+                    }
+                }
+                Step::Panic(kind) => {
+                    if i == evs.len() && *term == MTerm::Panic(kind) {
+                        return Conf::Ok;
+                    }
+                }
+            }
+        }
+    }
+    let what = if furthest < evs.len() {
+        format!("no model run gets past observed event #{furthest}: {:?}", evs[furthest])
+    } else {
+        format!("every observed operation is explained, but the model cannot end the execution as observed ({:?})", term)
+    };
+    Conf::Mismatch(furthest, what)
+}
+
+/// Does the observed execution conform to the model under at least one admissible policy?
+pub fn conforms(p: &Prog, evs: &[ObsEv], term: &MTerm, cap: usize) -> Conf {
+    if let MTerm::Panic(k) = term {
+        if !k.starts_with("reentrant-") {
+            return Conf::Inconclusive;
+        }
+    }
+    let mut best: Option<(usize, String)> = None;
+    let mut inconclusive = false;
+    for pol in relevant_policies(p) {
+        if pol.spurious_park {
+            continue; // spurious wake-ups are observed events here, not a policy
+        }
+        match conforms_pol(p, evs, term, &pol, cap) {
+            Conf::Ok => return Conf::Ok,
+            Conf::Inconclusive => inconclusive = true,
+            Conf::Mismatch(i, w) => {
+                if best.as_ref().map(|b| i > b.0).unwrap_or(true) {
+                    best = Some((i, w));
+                }
+            }
+        }
+    }
+    if inconclusive {
+        return Conf::Inconclusive;
+    }
+    match best {
+        Some((i, w)) => Conf::Mismatch(i, w),
+        None => Conf::Inconclusive,
+    }
+}
